@@ -14,6 +14,7 @@ from .. import refgeo as rg
 from leuvenmapmatching.util import dist_euclidean as de
 
 ID = "C13"
+CASE_TIMEOUT = 30
 CASES = {"quick": 100000, "thorough": 2000000}
 MIN_CASES_PER_SHARD = 500
 CASE_TIMEOUT = 10
@@ -32,7 +33,8 @@ SEG_CLASSES = ["general", "zero_f", "zero_t", "zero_both", "parallel", "collinea
 PT_CLASSES = ["interior", "before", "beyond", "on_segment", "at_endpoint", "zero_length", "grid"]
 FLOORS = {f"segseg_class:{c}": 200 for c in SEG_CLASSES}
 FLOORS.update({f"ptseg_class:{c}": 150 for c in PT_CLASSES})
-FLOORS.update({"box_checks": 500, "segseg_judged": 8000, "ptseg_judged": 4000})
+FLOORS.update({"box_checks": 500, "segseg_judged": 8000, "ptseg_judged": 4000, "matcher_runs_under_contracts": 500,
+               "segseg_judged_in_matcher": 20000, "ptseg_judged_in_matcher": 20000})
 ASSUMPTIONS = ["float tolerance 1e-6*E + 64*eps*M (E = extent of the configuration, M = largest coordinate magnitude)",
                "non-degenerate segments are at least 1e-4 of the configuration scale long (the absolute 1e-8 "
                "zero-length test of project() is only exercised with exactly equal end points)"]
@@ -169,6 +171,20 @@ def _xform(pts, s, off):
 
 
 def gen_case(rng, i, tier):
+    if i % 40 == 7:
+        from .. import mcase
+        mc = mcase.gen_mcase(rng, ne=(rng.random() < 0.7), width="maybe", tighten_p=0.0, sparse_p=0.3, max_obs=8,
+                             kinds=("random", "grid", "chain", "chain_dyadic"))
+        k = rng.choice([0, 0, -8, 6, 16])
+        off = (float(rng.randint(-10 ** 6, 10 ** 6)), float(rng.randint(-10 ** 6, 10 ** 6))) if rng.random() < 0.3 else (0.0, 0.0)
+        from .. import gen as G
+        sc = 2.0 ** k
+        mc["map"] = G.transform_map(mc["map"], sc, off)
+        mc["trace"] = G.transform_trace(mc["trace"], sc, off)
+        for key in ("obs_noise", "obs_noise_ne", "dist_noise", "max_dist", "max_dist_init"):
+            if mc["cfg"].get(key) is not None:
+                mc["cfg"][key] *= sc
+        return {"fn": "matcher", "cls": "matcher", "mcase": mc}
     r = rng.random()
     s, off = _scale_offset(rng)
     if r < 0.6:
@@ -214,12 +230,14 @@ def tol_of(pts, extra=0.0):
     return 1e-6 * e + 64 * EPS * m
 
 
-def check_segseg(ctx, fn, a, b, c, d, case, where="direct"):
+def check_segseg(ctx, fn, a, b, c, d, case, where="direct", res=None):
     """contract on one call of distance_segment_to_segment; fn is the (unwrapped) real function."""
     ctx.evaluated()
-    ctx.count("segseg_judged")
+    ctx.count("segseg_judged" if where == "direct" else "segseg_judged_in_matcher")
+    a, b, c, d = tuple(a[:2]), tuple(b[:2]), tuple(c[:2]), tuple(d[:2])
     try:
-        res = fn(a, b, c, d)
+        if res is None:
+            res = fn(a, b, c, d)
         dd, pf, pt, uf, ut = res
     except Exception as e:  # totality of the primitive on finite input
         ctx.violation(f"C13:segseg:raises-{type(e).__name__}:{exact_class(a, b, c, d)}", case, repr(e))
@@ -247,14 +265,19 @@ def check_segseg(ctx, fn, a, b, c, d, case, where="direct"):
     return res
 
 
-def check_ptseg(ctx, fn_proj, fn_dist, p, a, b, case, where="direct"):
+def check_ptseg(ctx, fn_proj, fn_dist, p, a, b, case, where="direct", res=None):
     ctx.evaluated()
-    ctx.count("ptseg_judged")
+    ctx.count("ptseg_judged" if where == "direct" else "ptseg_judged_in_matcher")
+    p, a, b = tuple(p[:2]), tuple(a[:2]), tuple(b[:2])
     tol = tol_of([p, a, b])
     rd, rt, rq = rg.pl_point_segment(p, a, b)
     try:
-        q, t = fn_proj(a, b, p)
-        dd, q2, t2 = fn_dist(p, a, b)
+        if res is None:
+            q, t = fn_proj(a, b, p)
+            dd, q2, t2 = fn_dist(p, a, b)
+        else:
+            dd, q, t = res
+            q2, t2 = q, t
     except Exception as e:
         ctx.violation(f"C13:ptseg:raises-{type(e).__name__}", case, repr(e))
         return
@@ -298,7 +321,53 @@ def check_box(ctx, p, r, case):
         ctx.violation("C13:distance:wrong", case, f"p={p} r={r}")
 
 
+def shard_setup(ctx):
+    """Part B: contracts on the module functions as the matcher itself calls them.  The wrappers are installed on the
+    module attributes before any map is built (BaseMap binds the functions at construction) and are only active
+    while a 'matcher' case runs."""
+    orig_ss, orig_ps = de.distance_segment_to_segment, de.distance_point_to_segment
+    ctx.state["orig"] = (orig_ss, orig_ps)
+    st = ctx.state
+
+    def ss(f1, f2, t1, t2):
+        res = orig_ss(f1, f2, t1, t2)
+        if st.get("active") is not None:
+            check_segseg(ctx, None, f1, f2, t1, t2, st["active"], where="matcher", res=res)
+        return res
+
+    def ps(p, s1, s2, delta=0.0):
+        res = orig_ps(p, s1, s2, delta=delta)
+        if st.get("active") is not None and delta == 0.0:
+            check_ptseg(ctx, None, None, p, s1, s2, st["active"], where="matcher", res=res)
+        return res
+    de.distance_segment_to_segment = ss
+    de.distance_point_to_segment = ps
+
+
+def shard_teardown(ctx):
+    de.distance_segment_to_segment, de.distance_point_to_segment = ctx.state["orig"]
+
+
+def check_matcher(ctx, case):
+    from .. import build
+    mc = case["mcase"]
+    ctx.count("matcher_runs_under_contracts")
+    wit = {"fn": "matcher", "mcase": mc}
+    ctx.state["active"] = wit
+    try:
+        mp = build.make_inmem(mc["map"])
+        mt = build.make_matcher(mp, mc["cfg"])
+        try:
+            mt.match(build.trace(mc["trace"]))
+        except Exception:
+            ctx.count("matcher_raised")
+    finally:
+        ctx.state["active"] = None
+
+
 def check_case(ctx, case):
+    if case["fn"] == "matcher":
+        return check_matcher(ctx, case)
     pts = [tuple(p) for p in case["pts"]]
     if case["fn"] == "segseg":
         a, b, c, d = pts
